@@ -112,8 +112,37 @@ def check_case(case):
     return None
 
 
+SWAP = {"eq": "ne", "ne": "eq", "lt": "ge", "ge": "lt", "gt": "le", "le": "gt", "and": "or", "or": "and",
+        "add": "sub", "sub": "add", "mul": "div", "div": "mul", "mod": "mul", "any": "all"}
+
+
+def twin(t):
+    """Same shape, but every field-less operator token swapped and integer literals turned into
+    strings: a result cached on a key that ignores those would be returned for the wrong tree."""
+    from ..terms import rebuild
+    k = t[0]
+    if k == "lit" and t[1] == "int":
+        return ("lit", "str", t[2])
+    if k in ("bin", "cmp", "bool") and t[1] in SWAP and not (k == "cmp" and t[1] == "in"):
+        return (k, SWAP[t[1]], twin(t[2]), twin(t[3]))
+    cs = children(t)
+    return rebuild(t, [twin(c) for c in cs]) if cs else t
+
+
+def check_with_twin(case):
+    r = check_case(case)
+    if r:
+        return r
+    t2 = twin(from_json(case["term"]))
+    if wellformed(t2):
+        r = check_case(dict(case, term=to_json(t2)))
+        if r:
+            return ("after-lookalike:" + r[0], "first %r then its look-alike: %s" % (printer.render(from_json(case["term"])), r[1]))
+    return None
+
+
 def replay(case):
-    return check_case(case)
+    return check_with_twin(case)
 
 
 def shrink(case, bucket):
@@ -122,7 +151,7 @@ def shrink(case, bucket):
     def still(c):
         if not wellformed(c):
             return False
-        r = check_case(dict(case, term=to_json(c)))
+        r = check_with_twin(dict(case, term=to_json(c)))
         return bool(r) and r[0] == bucket
 
     return dict(case, term=to_json(shr.shrink_term(t, still, budget=250)))
@@ -154,7 +183,7 @@ def plan(tier, seed, scale):
 
 def run_task(task, seed, acc):
     def one(case):
-        r = check_case(case)
+        r = check_with_twin(case)
         nt = nontrivial(case)
         acc.case(key=digest(case), nontrivial=nt,
                  sample={"expr": printer.render(from_json(case["term"])), "var": case["var"]})
